@@ -44,5 +44,12 @@ for n in [0, 1, 63, 64, 65, 128]:
                   functions=["bn256.(*pointG1).UnmarshalBinary", "bn256.(*gfP).Unmarshal", "bn256.montEncode", "bn256.newGFp"], bound="input length %d, arbitrary content" % n,
                   tiers=(["quick", "thorough"] if n in (0, 63, 64, 65) else ["thorough"]),
                   mutants=[dict(id="C04a", file="pairing/bn256/point.go", old="\tif !p.g.IsOnCurve() {\n\t\treturn errors.New(\"bn256.G1: malformed point\")\n\t}", new="\t_ = errors.New")] if n == 64 else []))
+BQ = "go.dedis.ch/kyber/v4/pairing/bn254."
+bq_contracts = {BQ + k: dict(writes=[0], havoc=True) for k in ["gfpMul", "gfpAdd", "gfpSub", "gfpNeg"]}
+for n in [0, 63, 64, 65]:
+    H.append(dict(name="bn254.G1.UnmarshalBinary-len%d" % n, pkg="./pairing/bn254", files=["harness/C04/gen_bn254.go"], entry="HarnessBNUnmarshalG1", mode="bv", params={"p0": n},
+                  renames={"(*" + BQ + "curvePoint).IsOnCurve": "bnStubIsOnCurve"}, contracts=bq_contracts, replay_entry="HarnessBNUnmarshalG1Replay", unwind=400,
+                  stubs=["(*curvePoint).IsOnCurve -> recording stub with an arbitrary verdict", "gfpMul/gfpAdd/gfpSub/gfpNeg (assembly) -> writes only its output parameter, arbitrary value"],
+                  functions=["bn254.(*pointG1).UnmarshalBinary", "bn254.(*gfP).Unmarshal"], bound="input length %d, arbitrary content" % n, tiers=(["quick", "thorough"] if n in (63, 64) else ["thorough"])))
 json.dump(dict(property="C04", harnesses=H), open(os.path.join(os.path.dirname(__file__), "..", "specs", "C04.json"), "w"), indent=1)
 print(len(H))
